@@ -755,7 +755,7 @@ func shuffleBlock(r *RNG, b SBlock, rename bool) SBlock {
 }
 
 func runC12(res *Result, rng *RNG, tier string, outDir string) {
-	res.Rule = "each error-free scenario is presented (1) with facts, rules, checks and the queries inside checks shuffled in every block and in the authorizer (policies keep their order), (2) with variables renamed consistently per rule, (3) with an authorizer fact added twice, (4) with Authorize called a second and third time on the same authorizer. Oracle: verdict class, number of failed checks, the derived fact SET and query result SETS are identical across presentations. Non-trivial = at least 2 facts and 1 rule or check to permute; distinct by canonical text."
+	res.Rule = "each error-free scenario is presented (1) with facts, rules, checks and the queries inside checks shuffled in every block and in the authorizer (policies keep their order), (2) with variables renamed consistently per rule, (3) with an authorizer fact added twice, (4) with Authorize called a second and third time on the same authorizer, (5) with a Query on the authorizer before Authorize. Oracle: verdict class, number of failed checks, the derived fact SET and query result SETS are identical across presentations. Non-trivial = at least 2 facts and 1 rule or check to permute; distinct by canonical text."
 	n := 130
 	if tier == "thorough" {
 		n = 8000
@@ -807,11 +807,11 @@ func runC12(res *Result, rng *RNG, tier string, outDir string) {
 		if i < 2 {
 			res.Sample(scReplay(sc, base, nil))
 		}
-		for variant := 0; variant < 4; variant++ {
+		for variant := 0; variant < 5; variant++ {
 			vs := sc
 			vs.Token = nil
 			vs.Ops = nil
-			name := []string{"shuffle", "rename", "duplicate", "repeat"}[variant]
+			name := []string{"shuffle", "rename", "duplicate", "repeat", "query-first"}[variant]
 			switch variant {
 			case 0, 1:
 				for _, b := range sc.Token {
@@ -871,6 +871,14 @@ func runC12(res *Result, rng *RNG, tier string, outDir string) {
 						vs.Ops = append(vs.Ops, azOp{Kind: "authorize"}, azOp{Kind: "authorize"})
 					}
 				}
+			case 4: // the authorizer is queried once BEFORE Authorize: the outcome depends on content only
+				vs.Token = sc.Token
+				for _, op := range sc.Ops {
+					if op.Kind == "authorize" {
+						vs.Ops = append(vs.Ops, azOp{Kind: "query", Rule: g.pg.query(false)})
+					}
+					vs.Ops = append(vs.Ops, op)
+				}
 			}
 			tv, err := buildToken(vs.Token, r.Fork())
 			if err != nil {
@@ -927,6 +935,7 @@ func runC13(res *Result, rng *RNG, tier string, outDir string) {
 	if tier == "thorough" {
 		n = 10000
 	}
+	c13TimedOutRound(res)
 	var cs azCases
 	for i := 0; i < n; i++ {
 		r := rng.Fork()
@@ -978,11 +987,13 @@ func runC13(res *Result, rng *RNG, tier string, outDir string) {
 					}
 				}
 			}
-			switch r.Intn(4) {
+			switch r.Intn(5) {
 			case 0:
 				ops = append(ops, azOp{Kind: "query", Rule: g.pg.query(false)})
 			case 1:
 				ops = append(ops, azOp{Kind: "authorize"}, azOp{Kind: "query", Rule: g.pg.query(false)})
+			case 2: // a query BEFORE the authorization: the token's content is loaded by Authorize all the same
+				ops = append(ops, azOp{Kind: "query", Rule: g.pg.query(false)}, azOp{Kind: "authorize"})
 			default:
 				ops = append(ops, azOp{Kind: "authorize"})
 			}
@@ -1541,5 +1552,94 @@ func c12SiblingRules(res *Result) {
 				res.Violate("rule-order-changes-verdict:"+place, "swapping two sibling rules changes the outcome: "+outs[0]+" vs "+outs[1], map[string]interface{}{"rules": pr, "placed_in": place})
 			}
 		}
+	}
+}
+
+// c13TimedOutRound: a round that ends with the time limit leaves a library goroutine computing
+// (it finishes the rule it is applying).  After Reset, and after that goroutine is gone, the
+// authorizer must still be as good as new: what the abandoned evaluation derives must not reach
+// the world of the next round.  (On a machine where the round does not time out the scenario is
+// skipped; nothing here depends on timing for its verdict.)
+func c13TimedOutRound(res *Result) {
+	pub, priv := rootKeys()
+	b := biscuit.NewBuilder(priv, biscuit.WithRNG(detReader{NewRNG(61)}))
+	ch, err := parser.FromStringCheck(`check if operation("read")`)
+	if err != nil {
+		fatal("timed-out round: %v", err)
+	}
+	b.AddAuthorityCheck(ch)
+	tok, err := b.Build()
+	if err != nil {
+		fatal("timed-out round: %v", err)
+	}
+	const n = 90
+	first := func(a biscuit.Authorizer) {
+		for i := 0; i < n; i++ {
+			a.AddFact(biscuit.Fact{Predicate: biscuit.Predicate{Name: "n", IDs: []biscuit.Term{biscuit.Integer(int64(i))}}})
+		}
+		r, err := parser.FromStringRule(fmt.Sprintf(`operation("read") <- n($a), n($b), n($c), $a + $b + $c == %d`, 3*(n-1)))
+		if err != nil {
+			fatal("timed-out round: %v", err)
+		}
+		a.AddRule(r)
+		a.AddPolicy(biscuit.DefaultAllowPolicy)
+	}
+	second := func(a biscuit.Authorizer) {
+		f, _ := parser.FromStringFact(`operation("write")`)
+		a.AddFact(f)
+		a.AddPolicy(biscuit.DefaultAllowPolicy)
+	}
+	base := datalogGoroutines()
+	generous, err := tok.AuthorizerFor(biscuit.WithSingularRootPublicKey(pub), biscuit.WithWorldOptions(datalog.WithMaxDuration(10*time.Minute)))
+	if err != nil {
+		fatal("timed-out round: %v", err)
+	}
+	first(generous)
+	start := time.Now()
+	if err := generous.Authorize(); err != nil {
+		res.Dist("timed-out-round:skipped:first-request-fails")
+		return
+	}
+	full := time.Since(start)
+	limit := full / 8
+	if limit < 20*time.Millisecond {
+		res.Dist("timed-out-round:skipped:machine-too-fast")
+		return
+	}
+	opts := biscuit.WithWorldOptions(datalog.WithMaxDuration(limit))
+	fresh, err := tok.AuthorizerFor(biscuit.WithSingularRootPublicKey(pub), opts)
+	if err != nil {
+		fatal("timed-out round: %v", err)
+	}
+	second(fresh)
+	want, _, _ := classifyVerdict(fresh.Authorize())
+	reused, err := tok.AuthorizerFor(biscuit.WithSingularRootPublicKey(pub), opts)
+	if err != nil {
+		fatal("timed-out round: %v", err)
+	}
+	first(reused)
+	if err := reused.Authorize(); !errors.Is(err, datalog.ErrWorldRunLimitTimeout) {
+		res.Dist("timed-out-round:skipped:no-timeout")
+		return
+	}
+	reused.Reset()
+	// wait until the abandoned evaluation is over
+	deadline := time.Now().Add(6*full + 5*time.Second)
+	for time.Now().Before(deadline) && datalogGoroutines() > base {
+		time.Sleep(20 * time.Millisecond)
+	}
+	time.Sleep(50 * time.Millisecond)
+	res.Count("timed-out-round", true)
+	res.Dist("timed-out-round:run")
+	world := reused.PrintWorld()
+	second(reused)
+	got, _, _ := classifyVerdict(reused.Authorize())
+	rep := map[string]interface{}{"token": `check if operation("read")`, "round1": fmt.Sprintf("%d facts n(i) and operation(\"read\") <- n($a), n($b), n($c), $a + $b + $c == %d, time limit %v (full evaluation %v): timeout", n, 3*(n-1), limit, full),
+		"then": "Reset, wait for the library goroutine to end", "round2": `operation("write"), allow if true`, "fresh": want, "reused": got, "world_after_reset_and_wait": world}
+	if strings.Contains(world, "operation(") || strings.Contains(world, "n(") {
+		res.Violate("reset-leak:world-after-timeout", "after a timed-out round and Reset the authorizer's world is not empty once the abandoned evaluation has ended", rep)
+	}
+	if got != want {
+		res.Violate("reset-leak:verdict-after-timeout", "after a timed-out round and Reset the authorizer answers "+got+" where a new authorizer answers "+want, rep)
 	}
 }
